@@ -35,8 +35,27 @@ def rule_push_buffer(ctx, rid, reason):
                 pushes = _idx(ev, lambda e: e.kind == "call" and e.q and e.q.endswith("::push") and e.args and strip_sv(e.args[0]) == ep)
                 frees = _idx(ev, lambda e: is_free_of(e, ep))
                 syncs = _idx(ev, lambda e: e.kind == "call" and e.q and e.q.endswith("::synchronize"))
+                # callees that themselves push the pointer they are given (one-level summary)
+                handoffs = []
+                for i, e in enumerate(ev):
+                    if e.kind == "call" and e.q and not e.q.endswith("::push") and e.args and any(strip_sv(a) == ep for a in e.args):
+                        G = ctx.db.get(e.node.get("m")) if e.node is not None else None
+                        if G is not None and G.params:
+                            for k, a in enumerate(e.args):
+                                if strip_sv(a) == ep and k < len(G.params):
+                                    pv = G.params[k]["d"]
+                                    for c in Q.calls_in(G, r"::push$"):
+                                        if any(x.get("k") == "ref" and x.get("d") == pv for aa in c.get("args", []) for x in G.walk(aa)):
+                                            handoffs.append(i)
                 if len(pushes) != 1:
                     ctx.bad(rid, F, "push_buffer makes %d push attempts for one retired pointer" % len(pushes), None, detail=reason, sig="push-once")
+                    continue
+                r0 = ev[pushes[0]].val
+                stored = any(atom == r0 and tv for atom, tv, bev in cond_atoms(p))
+                later = [i for i in handoffs if i > pushes[0]]
+                if stored and later:
+                    ctx.bad(rid, F, "a pointer that is already stored in the buffer is handed to %s, which pushes it again: it is queued (and disposed) twice"
+                            % ev[later[0]].q.split("::")[-1], ev[later[0]].node, detail=reason, sig="stored-twice")
                     continue
                 r = ev[pushes[0]].val
                 pushed = None
@@ -50,6 +69,9 @@ def rule_push_buffer(ctx, rid, reason):
                 elif pushed:
                     ctx.check(not frees, rid, F, "a pointer that was stored in the buffer is not freed by push_buffer", ev[pushes[0]].node,
                               detail="freed although it is also in the buffer: it will be disposed twice. " + reason, sig="pushed-not-freed")
+                elif later:
+                    # the pointer was handed to a callee that stores it itself; whether it must be freed here depends on that callee's result
+                    ctx.check(len(frees) <= 1, rid, F, "a pointer handed over to a storing callee is freed at most once here", ev[pushes[0]].node, sig="handoff-free")
                 else:
                     ok = len(frees) == 1 and bool(syncs) and syncs[0] < frees[0]
                     ctx.check(ok, rid, F, "a pointer that did not fit in the buffer is freed exactly once, after synchronize()", ev[pushes[0]].node,
